@@ -243,3 +243,121 @@ Proof. split; vm_compute; reflexivity. Qed.
 
 Lemma gen_ops_are_bytes : forallb (fun e => (0 <=? snd e) && (snd e <? 256) && Z.odd (snd e)) py_ops = true.
 Proof. vm_compute. reflexivity. Qed.
+
+(* ------------------------------------------------------------------ whole tables *)
+(* _types = ''.join(op.as_python_bytes() for op in cffi_types)   (recompiler.write_py_source_to_f) *)
+Fixpoint encode_types (ops : list cffiop) : result (list Z) :=
+  match ops with
+  | [] => Ok []
+  | o :: ops' =>
+      match as_python_bytes o with
+      | Err e => Err e
+      | Ok b => match encode_types ops' with Ok r => Ok (b ++ r) | Err e => Err e end
+      end
+  end.
+
+(* ffiobj_init: n = types_len / 4;  for (i = 0; i < n; i++) { ntypes[i] = cdl_opcode(types); types += 4; } *)
+Fixpoint decode_types_n (n : nat) (bs : list Z) : list Z :=
+  match n with O => [] | S k => cdl_4bytes bs :: decode_types_n k (skipn 4 bs) end.
+Definition decode_types (bs : list Z) : list Z := decode_types_n (Nat.div (List.length bs) 4) bs.
+
+Definition encodable (o : cffiop) : Prop :=
+  match o with
+  | Op op arg => 0 <= op < 256 /\ - 2 ^ 23 <= arg < 2 ^ 23
+  | OpLen n => 0 <= n < 2 ^ 31
+  | OpExpr => False
+  end.
+
+(* what the C side holds for an entry: the opcode word, or the raw array length *)
+Definition raw_of (o : cffiop) : Z :=
+  match o with Op op arg => arg * 256 + op | OpLen n => n | OpExpr => 0 end.
+
+Lemma encode_one : forall o, encodable o ->
+  exists b, as_python_bytes o = Ok b /\ List.length b = 4%nat /\ forall rest, cdl_4bytes (b ++ rest) = raw_of o
+            /\ skipn 4 (b ++ rest) = rest.
+Proof.
+  intros o H. destruct o as [n| |op arg]; cbn [encodable] in H; [| contradiction |].
+  - exists (format_four_bytes n). unfold as_python_bytes, gen_len_overflow.
+    destruct (Z.geb_spec n (2 ^ 31)); [lia|]. split; [reflexivity|]. split; [reflexivity|].
+    intros rest. split; [|reflexivity].
+    rewrite cdl_prefix. cbn [raw_of]. apply cdl_ffb. lia.
+  - destruct H as [Hop Harg]. exists (format_four_bytes (gen_pack arg op)).
+    split; [reflexivity|]. split; [reflexivity|]. intros rest. split; [|reflexivity].
+    rewrite cdl_prefix, pack_arith by assumption. cbn [raw_of]. apply cdl_ffb.
+    change (2 ^ 23) with 8388608 in Harg. change (2 ^ 31) with 2147483648. lia.
+Qed.
+
+Lemma types_table_roundtrip : forall ops, Forall encodable ops ->
+  exists bs, encode_types ops = Ok bs /\ List.length bs = (4 * List.length ops)%nat /\
+             decode_types bs = map raw_of ops.
+Proof.
+  assert (G : forall ops, Forall encodable ops ->
+          exists bs, encode_types ops = Ok bs /\ List.length bs = (4 * List.length ops)%nat /\
+                     decode_types_n (List.length ops) bs = map raw_of ops).
+  { induction ops as [|o ops IH]; intros H.
+    - exists []. repeat split; reflexivity.
+    - inversion H as [|? ? Ho Hops]; subst. destruct (IH Hops) as [r [Er [Lr Dr]]].
+      destruct (encode_one o Ho) as [b [Eb [Lb Hb]]].
+      exists (b ++ r). cbn [encode_types]. rewrite Eb, Er. split; [reflexivity|]. split.
+      + rewrite app_length, Lb, Lr. cbn [List.length]. lia.
+      + cbn [List.length decode_types_n map]. destruct (Hb r) as [H1 H2]. rewrite H1, H2, Dr. reflexivity. }
+  intros ops H. destruct (G ops H) as [bs [E [L D]]]. exists bs. repeat split; try assumption.
+  unfold decode_types. rewrite L. rewrite Nat.mul_comm, Nat.div_mul by lia. exact D.
+Qed.
+
+(* an opcode word splits back into (op, arg) *)
+Lemma raw_splits : forall op arg, 0 <= op < 256 -> getop (raw_of (Op op arg)) = op /\ getarg (raw_of (Op op arg)) = arg.
+Proof.
+  intros op arg Hop. cbn [raw_of]. unfold getop, getarg. rewrite land_255, shiftr_div by lia. change (2 ^ 8) with 256.
+  split.
+  - Ltac Zify.zify_post_hook ::= Z.to_euclidean_division_equations. lia.
+  - Ltac Zify.zify_post_hook ::= Z.to_euclidean_division_equations. lia.
+Qed.
+
+(* _globals = (b'<type_op><name>', int, ...): the records, as a list *)
+Definition global_ok (g : Z * Z * list Z) : Prop :=
+  let '(op, arg, name) := g in 0 <= op < 256 /\ - 2 ^ 23 <= arg < 2 ^ 23 /\ nulfree name.
+
+Lemma globals_table_roundtrip : forall gs, Forall global_ok gs ->
+  map (fun b => decode_global (as_c b)) (map (fun g => let '(op, arg, name) := g in encode_global op arg name) gs)
+  = map (fun g => let '(op, arg, name) := g in ((op, arg), name)) gs.
+Proof.
+  induction gs as [|[[op arg] name] gs IH]; intros H; [reflexivity|].
+  inversion H as [|? ? H1 H2]; subst. cbn [map]. rewrite IH by exact H2.
+  destruct H1 as [Hop [Harg Hn]]. rewrite global_roundtrip by assumption. reflexivity.
+Qed.
+
+(* _struct_unions = ((b'<type_index><flags><name>', b'<field>', ...), ...) *)
+Definition field_ok (f : Z * Z * Z * list Z) : Prop :=
+  let '(op, arg, bitsize, name) := f in
+  0 <= op < 256 /\ - 2 ^ 23 <= arg < 2 ^ 23 /\ 0 <= bitsize < 2 ^ 31 /\ nulfree name.
+Definition struct_ok (s : Z * Z * list Z * list (Z * Z * Z * list Z)) : Prop :=
+  let '(ti, flags, name, fields) := s in
+  0 <= ti < 2 ^ 31 /\ 0 <= flags < 2 ^ 31 /\ nulfree name /\ Forall field_ok fields.
+
+Definition encode_struct_entry (op_noop : Z) (s : Z * Z * list Z * list (Z * Z * Z * list Z)) : list (list Z) :=
+  let '(ti, flags, name, fields) := s in
+  encode_struct ti flags name
+  :: map (fun f => let '(op, arg, bitsize, fname) := f in encode_field op_noop op arg bitsize fname) fields.
+
+Definition decode_struct_entry (op_noop : Z) (e : list (list Z)) :=
+  match e with
+  | [] => None
+  | head :: fields => Some (decode_struct (as_c head), map (fun f => decode_field op_noop (as_c f)) fields)
+  end.
+
+Lemma struct_unions_table_roundtrip : forall op_noop ss, Forall struct_ok ss ->
+  map (decode_struct_entry op_noop) (map (encode_struct_entry op_noop) ss)
+  = map (fun s => let '(ti, flags, name, fields) := s in
+                  Some ((ti, flags, name),
+                        map (fun f => let '(op, arg, bitsize, fname) := f in
+                                      ((op, arg), (if op =? op_noop then None else Some bitsize), fname)) fields)) ss.
+Proof.
+  induction ss as [|[[[ti flags] name] fields] ss IH]; intros H; [reflexivity|].
+  inversion H as [|? ? H1 H2]; subst. cbn [map]. rewrite IH by exact H2.
+  destruct H1 as [Hti [Hfl [Hn Hf]]]. cbn [encode_struct_entry decode_struct_entry].
+  rewrite struct_roundtrip by assumption. f_equal. f_equal. f_equal.
+  rewrite map_map. clear - Hf. induction fields as [|[[[op arg] bs] fname] fields IHf]; [reflexivity|].
+  inversion Hf as [|? ? F1 F2]; subst. cbn [map]. rewrite IHf by exact F2.
+  destruct F1 as [A [B [C D]]]. rewrite field_roundtrip by assumption. reflexivity.
+Qed.
